@@ -107,6 +107,21 @@ def impl_checks(ctx, cases):
         after = float(it(t[-1] * 2 + 10.0))
         if not np.array_equal(base["time_arg"], t):
             bad("the caller's time array is modified by simulate / recovery_factor / recovery_factor_interpolator", c, dict(max_change=float(np.abs(base["time_arg"] - t).max())))
+        # a lookup object, once built, is a value: what the caller later does to ITS arrays (the time array it handed in, the recovery
+        # array it was given) must not change what the lookup returns
+        rf_then = np.array(rf, float)
+        base["time_arg"] *= 3.0
+        base["time_arg"] += 7.0
+        try:
+            rf *= 100.0
+        except Exception:  # noqa: BLE001, S110
+            pass
+        again = np.asarray(it(t), float)
+        ev += 1
+        if not np.array_equal(again, at_nodes):
+            bad("a recovery interpolator that was already built changes its values when the caller afterwards modifies its own time array / the recovery array it was handed (the lookup aliases the caller's arrays)",
+                c, dict(max_change=float(np.abs(again - at_nodes).max())))
+        rf = rf_then
         if not np.allclose(at_nodes, rf, rtol=1e-12, atol=1e-15) or before != 0.0 or after != float(rf[-1]):
             bad("recovery interpolator does not reproduce recovery at the simulated times / 0 before / final value after", c,
                 dict(max_node_diff=float(np.abs(at_nodes - rf).max()), before=before, after=after, final=float(rf[-1])))
